@@ -269,8 +269,12 @@ def json_roundtrip(obj, cls, via="string"):
     return cls.from_json(text), text
 
 
-class NonTermination(Exception):
-    pass
+class NonTermination(AssertionError):
+    """run() simulated more periods than any event of the scenario can account for.  Raised from
+    the per-period call every simulated period must make (update_pilots); the runner reports it as
+    a violation (clause run_does_not_terminate), never as a time-out."""
+
+    clause = "run_does_not_terminate"
 
 
 class TraceNetwork(ChargingNetwork):
@@ -670,11 +674,35 @@ def run_sim(h):
 
     orig = np.random.normal
     np.random.normal = h.feed
+    # step bound: the run ends one period after its last event; every event is known when run() is
+    # called (pending, or a departure of a known EV) or comes from the scenario (sessions added
+    # while the run is in progress).  More simulated periods than that is non-termination.
+    horizon = [h.sim.iteration]
+    for _, e in h.sim.event_queue.queue:
+        horizon.append(e.timestamp)
+        if hasattr(e, "ev"):
+            horizon.append(e.ev.departure)
+    horizon += [ev.departure for ev in h.sim.ev_history.values()]
+    shift = getattr(h.scheduler, "late_shift", 0) or 0
+    horizon += [x["departure"] + shift for x in h.spec.get("sessions", []) if x.get("added_at") is not None]
+    budget = max(horizon) - h.sim.iteration + 12
+    count = [0]
+    orig_update = ChargingNetwork.update_pilots
+
+    def counted(self, *a, **k):
+        if self is h.sim.network:
+            count[0] += 1
+            if count[0] > budget:
+                raise NonTermination("run() has simulated %d periods from iteration %d on, the last event it can know of is in period %d" % (count[0], horizon[0], max(horizon)))
+        return orig_update(self, *a, **k)
+
+    ChargingNetwork.update_pilots = counted
     try:
         with warnings.catch_warnings(), contextlib.redirect_stdout(io.StringIO()):
             warnings.simplefilter("ignore")
             h.sim.run()
     finally:
+        ChargingNetwork.update_pilots = orig_update
         np.random.normal = orig
         # a session that was added while the run was in progress by a scheduler object built later
         # (after a scheduler swap, on a restored simulator) is the EV object the simulator reports
